@@ -91,6 +91,15 @@ func (p *poller) addConn(c *Conn) error {
 	if err != nil {
 		p.g.connsUnix[fd] = nil
 		_ = c.closeWithError(err)
+	} else {
+		// The open handler runs before the fd is added to epoll: if it left
+		// data to be written, the writing event could not be set then.
+		c.mux.Lock()
+		if !c.closed && len(c.writeList) > 0 {
+			c.isWAdded = true
+			_ = p.modWrite(fd)
+		}
+		c.mux.Unlock()
 	}
 	return err
 }
